@@ -19,6 +19,10 @@ res = {"at": time.strftime("%Y-%m-%d %H:%M:%S"), "property": pid, "tier": tier,
        "repo_commit": subprocess.check_output(["git", "-C", "/repo", "rev-parse", "--short", "HEAD"], text=True).strip()}
 try:
     patch = os.path.join(d, "patch.diff")
+    head = os.path.join(d, "patch.head.diff")     # the same change re-made against a later HEAD of /repo (hooks/fixes moved the context)
+    if os.path.exists(head) and subprocess.call(["git", "apply", "--check", patch], cwd=wt, stderr=subprocess.DEVNULL) != 0:
+        patch = head
+        res["used_head_port"] = True
     rc = subprocess.call(["git", "apply", patch], cwd=wt)
     if rc != 0:
         rc = subprocess.call(["git", "apply", "-3", patch], cwd=wt)
